@@ -624,6 +624,18 @@ def _flush_collector(
     return 0
 
 
+def _flush_collector_logs(writer: ipc.RecordBatchStreamWriter, out: OutputCollector) -> None:
+    """Write only the client-log batches of *out* (used when the step that logged them then failed).
+
+    A ``process()`` call that raises produces no data, but the messages it
+    logged before raising were emitted and must still reach the client, ahead
+    of the error batch.
+    """
+    for ab in out.log_batches:
+        _record_output(ab.batch)
+        writer.write_batch(ab.batch, custom_metadata=ab.custom_metadata)
+
+
 def _dispatch_log_or_error(
     batch: pa.RecordBatch,
     custom_metadata: pa.KeyValueMetadata | None,
